@@ -55,8 +55,10 @@ def build_ext(name, flavour="plain"):
         code = f.read()
     inc = sysconfig.get_paths()["include"]
     if flavour == "asan":
+        # recover: a report is written to the ASan log and execution continues, so the run that
+        # caused it can be identified and turned into a VIOLATION with a replay file
         cc = ["clang", "-O1", "-g", "-fno-omit-frame-pointer", "-fsanitize=address,undefined",
-              "-fno-sanitize-recover=undefined", "-shared-libasan"]
+              "-fsanitize-recover=address,undefined", "-shared-libasan"]
     else:
         cc = ["cc", "-O2"]
     flags = cc + ["-std=c99", "-shared", "-fPIC", "-DPy_LIMITED_API=0x030A0000", "-I" + inc]
@@ -72,6 +74,42 @@ def build_ext(name, flavour="plain"):
             raise RuntimeError("building %s (%s) failed:\n%s" % (name, flavour, r.stderr))
         os.replace(tmp, out)
     return out
+
+
+def build_shim():
+    """ASan-built libcrypto boundary shim (native/evp_shim.c), to be LD_PRELOADed after the ASan runtime."""
+    src = os.path.join(VERIF, "native", "evp_shim.c")
+    with open(src, "rb") as f:
+        code = f.read()
+    flags = ["clang", "-O1", "-g", "-fno-omit-frame-pointer", "-fsanitize=address", "-fsanitize-recover=address",
+             "-shared-libasan", "-shared", "-fPIC"]
+    key = _sha(code, " ".join(flags))
+    outdir = os.path.join(CACHE, "ext", key)
+    out = os.path.join(outdir, "evp_shim.so")
+    if not os.path.exists(out):
+        os.makedirs(outdir, exist_ok=True)
+        tmp = out + ".%d.tmp" % os.getpid()
+        r = subprocess.run(flags + ["-o", tmp, src, "-ldl"], capture_output=True, text=True)
+        if r.returncode != 0:
+            raise RuntimeError("building evp_shim failed:\n%s" % r.stderr)
+        os.replace(tmp, out)
+    return out
+
+
+def asan_env(log_prefix):
+    """Environment for re-executing the interpreter under AddressSanitizer + shim."""
+    rt = asan_runtime()
+    if rt is None:
+        raise RuntimeError("ASan runtime not found (clang -print-file-name=libclang_rt.asan-x86_64.so)")
+    env = dict(os.environ)
+    env["LD_PRELOAD"] = rt + ":" + build_shim()
+    env["PYTHONMALLOC"] = "malloc"
+    env["ASAN_OPTIONS"] = ("detect_leaks=0:halt_on_error=0:abort_on_error=0:allocator_may_return_null=1:"
+                           "log_path=%s:handle_segv=0" % log_prefix)
+    env["UBSAN_OPTIONS"] = "print_stacktrace=1:halt_on_error=0:log_path=%s" % log_prefix
+    env["VERIF_CFLAVOUR"] = "asan"
+    env["VERIF_ASAN_LOG"] = log_prefix
+    return env
 
 
 def _load_ext(modname, path):
